@@ -5,6 +5,7 @@ import GateryModel.C01.Masking
 import GateryModel.C01.MuxChain
 import GateryModel.C01.RewireRules
 import GateryModel.C01.Unused
+import GateryModel.C01.Unconnected
 /-!
 # C01 — property theorems
 
@@ -33,6 +34,9 @@ Three layers (DESIGN.md §5/C01, as built):
   the pass builds, for every chain length and width, when the selector is defined.
 * `mergeRewires`, `Node_Rewire::optimize` (C01/RewireRules.lean): fetching through a slicing rewire = fetching from its input with shifted
   offsets; dropping zero-width ranges; merging adjacent ranges — exact for all four-state values.
+* `insertConstUndefinedNodes`, `disconnectZeroBitConnections` (C01/Unconnected.lean): driving an input without state by an all-undefined
+  constant of any width (zero included) refines the value of every core node — equal except where the real code tests for a missing input
+  first and yields all-undefined; as a netlist rewrite it is locally sound, hence composes with all other rules.
 Passes without a rule theorem (retiming, memory detection, tech mapping, export
 preparation), multi-clock designs and memories are covered by the trace check only.
 -/
@@ -241,6 +245,42 @@ theorem optimizeRewire_rules (pre post : List Range) (ins : Ins) :
 
 example : evalRewire ([⟨2, .input 0 1⟩].map (shiftRange 0 3)) ([some (BV4.tab 4 fun i => optBit (some (BV4.ofNat 8 0xA5)) (3 + i))].set 0 (some (BV4.ofNat 8 0xA5))) =
           evalRewire [⟨2, .input 0 1⟩] [some (BV4.tab 4 fun i => optBit (some (BV4.ofNat 8 0xA5)) (3 + i))] := by decide
+
+/-! ### insertConstUndefinedNodes / disconnectZeroBitConnections -/
+
+/-- `insertConstUndefinedNodes` (undriven signals and signal loops get an all-undefined `Node_Constant` of the signal's width) and
+    `disconnectZeroBitConnections` (`wi = 0`: the zero-width constant), seen from a consumer: input port `i` changes from "no state"
+    to an all-undefined vector. For every node kind, output width, port, the other inputs in any state: the new value refines the old
+    one, so no defined bit changes, and a fully defined old value is unchanged. -/
+theorem insertConstUndefinedNodes_rule (k : NodeKind) (w : Nat) (ins : Ins) (i wi : Nat) :
+    evalNode k w (ins.set i none) ⊑ evalNode k w (ins.set i (some (BV4.undef wi))) ∧
+    ((evalNode k w (ins.set i none)).allDef = true → evalNode k w (ins.set i (some (BV4.undef wi))) = evalNode k w (ins.set i none)) :=
+  ⟨evalNode_insU k w (insU_set ins i wi), fun hd => (BV4.eq_of_le_of_allDef (evalNode_insU k w (insU_set ins i wi)) hd).symm⟩
+
+/-- the same for any number of ports at once (`InsU`: port by port equal, or no state ↦ all-undefined) -/
+theorem insertConstUndefinedNodes_rule_all (k : NodeKind) (w : Nat) {a b : Ins} (h : InsU a b) : evalNode k w a ⊑ evalNode k w b :=
+  evalNode_insU k w h
+
+/-- a connected zero-width driver: its value is the value of the zero-width constant, whatever node computed it -/
+theorem disconnectZeroBitConnections_rule (ins : Ins) (i : Nat) (v : BV4) (hv : v.length = 0) :
+    ins.set i (some v) = ins.set i (some (BV4.undef 0)) := by
+  rw [List.length_eq_zero_iff.mp hv]; rfl
+
+/-- as a rewrite of a netlist of any size: re-wiring the unconnected port `i` of a node to an earlier all-undefined constant `c` is
+    locally sound (`passes_preserve_defined` / `passes_preserve_compat` then apply to any sequence of such steps mixed with the others) -/
+theorem insertConstUndefinedNodes_netlist {ok : Env → Prop} (pre : List NetNode) (k : NodeKind) (ty : CType) (w : Nat)
+    (ins : List (Option Nat)) (i c wi : Nat) (hi : ins.getD i none = none)
+    (hc : ∀ env, ok env → (evalNet env pre).getD c none = some (BV4.undef wi)) :
+    LocalSound ok pre ⟨.node k ty, w, ins⟩ ⟨.node k ty, w, ins.set i (some c)⟩ :=
+  insertConstUndef_localSound pre k ty w ins i c wi hi hc
+
+-- the one place where the value really changes: a multiplexer whose selector had no state (all-undefined) now merges its equal inputs
+example : evalNode .mux 2 ([some [B4.t], some (BV4.ofNat 2 3), some (BV4.ofNat 2 3)].set 0 none) = BV4.undef 2 ∧
+          evalNode .mux 2 ([some [B4.t], some (BV4.ofNat 2 3), some (BV4.ofNat 2 3)].set 0 (some (BV4.undef 1))) = BV4.ofNat 2 3 := by decide
+-- premises of the netlist form on a concrete netlist: node 1 is the undefined constant, node 2 an AND with its second port open
+example : LocalSound (fun _ => True) [⟨.input 0, 2, []⟩, ⟨.node (.const (BV4.undef 2)) .bitvec, 2, []⟩]
+    ⟨.node (.logic .AND) .bitvec, 2, [some 0, none]⟩ ⟨.node (.logic .AND) .bitvec, 2, [some 0, some 1]⟩ :=
+  insertConstUndefinedNodes_netlist _ _ _ _ [some 0, none] 1 1 2 rfl (fun _ _ => rfl)
 
 /-! ### mergeBinaryMuxChain -/
 
